@@ -112,7 +112,7 @@ Section Generic.
       pose proof (@backward_mlp (net_at n0 cs t) specs d xl (gL yl) f
                     Hc eq_refl Hch_t Hxl
                     ltac:(rewrite Hgl; unfold specs; rewrite (lastD_at_t cs t h0 d); exact Hm)
-                    eq_refl Hpost eq_refl) as Hb.
+                    eq_refl (@posts_lookup f specs xl _ Hpost) eq_refl) as Hb.
       destruct (gradsL specs xl (gL yl)) as [[gin gps] gins].
       unfold sample_grad. cbn [fst snd]. rewrite Hf. cbn [bind].
       assert (Elast : last_opt (fw_post f) = Some (t_single NR yl)).
